@@ -126,6 +126,8 @@ def check(ctx: Ctx) -> None:
     _check_falsy_zero(ctx)
     from ..idioms import check_index_sets_not_spans
     check_index_sets_not_spans(ctx, 'C05.h', ['pyphysim/simulations/results.py', PAR, RUNNER], floor=2)
+    from ..idioms import check_none_tests
+    check_none_tests(ctx, 'C05.i', [RUNNER, PAR, 'pyphysim/simulations/results.py'], floor=10)
 
 
 from ..idioms import falsy_zero_tests  # noqa: E402
